@@ -16,7 +16,10 @@ MANIFEST = dict(
          "and through an independent Python re-implementation; mutated RQ documents must be rejected with the clause that was broken.",
     note="the visibility clause of lower_wf rests on the operations' guard that looked-up cids are in the current frame (that is the "
          "resolver's contract, C10); the id discipline proper (freshness, single definition, declaration order, shape) is proved "
-         "unconditionally. The model of the Lowerer is a model: it is tied to lowering.rs only through the monitor on real RQ.",
+         "unconditionally. The model of the Lowerer is a model: it is tied to lowering.rs only through the monitor on real RQ. "
+         "The unchanged tree violates the scope clause in three listed ways, all caused by the Flattener's persistent `sort` "
+         "(stale-sort-after-select, stale-sort-after-aggregate, sort-leaks-into-subpipeline; theorem emitted_rq_wf_counterexample "
+         "holds the witnesses); every other emitted RQ must pass wfRq, and the first two classes must pass the relaxed wfRqLax.",
     technique="Lean 4 invariant proof over a state machine + executable predicate as monitor on real RQ JSON + mutation testing", ref="4/C16")
 
 DECL = ("module default_db {\n let t <[{a = int, b = int, c = text}]>\n let u <[{a = int, d = int, e = text}]>\n"
